@@ -152,6 +152,29 @@ def h_sky_contains(kind, inc, m, aunit='deg'):
         m.require('point / line / text sky regions contain nothing (complement when excluded)', Iff(ans_sky, not included))
 
 
+def h_sky_contains_history(kind, m):
+    """the answer follows the CURRENT state: ask, change the region in place (include flag through meta, a size through its attribute),
+    ask again -- the second answer must again be that of the (new) pixel image"""
+    from regions import PixCoord
+    _shims(m)
+    reg = build_pixel(kind, m, None)
+    w = OpaqueWCS(m)
+    sky = reg.to_sky(w)
+    qx, qy = m.real('qx'), m.real('qy')
+    q = w.sky_at(qx, qy)
+    sky.contains(q, w)                                   # a first query, which a caching implementation would remember
+    sky.meta['include'] = False
+    for step in ('after meta["include"] = False in place', 'after a size was re-assigned'):
+        if step.startswith('after a size'):
+            name = [p_ for p_ in sky._params if p_ not in ('center', 'vertices', 'start', 'end', 'angle', 'text')][0]
+            setattr(sky, name, getattr(sky, name) * 2)
+        ans_sky = sky.contains(q, w)
+        ans_pix = sky.to_pixel(w).contains(PixCoord(qx, qy))
+        if isinstance(ans_pix, np.ndarray) and ans_pix.size == 1:
+            ans_pix = ans_pix.reshape(-1)[0]
+        m.require(f'{step}: sky membership equals the membership in the current pixel image', Iff(ans_sky, ans_pix))
+
+
 def h_roundtrip_sky(kind, inc, m):
     """sky -> pixel -> sky with symbolic angular sizes"""
     import regions as R
@@ -207,6 +230,8 @@ def harnesses(tier):
         for au in ('rad', 'arcmin'):
             hs.append((f'pix-sky-pix/{k}/angle-unit={au}', P(h_roundtrip_pix, k, None, aunit=au)))
             hs.append((f'sky-contains/{k}/angle-unit={au}', P(h_sky_contains, k, None, aunit=au)))
+    for k in ('circle', 'ellipse'):
+        hs.append((f'sky-contains/{k}/history', P(h_sky_contains_history, k)))
     for k in ('circle', 'ellipse', 'rectangle', 'annulus-circle', 'annulus-ellipse', 'annulus-rectangle'):
         for iname, inc in INCS[:2]:
             hs.append((f'sky-pix-sky/{k}/include={iname}', P(h_roundtrip_sky, k, inc)))
